@@ -130,7 +130,7 @@ def rand_assignblk(rng, allow_mem=True, stack=False):
     return out
 
 
-def gen_program(rng, with_calls=False, stack=False):
+def gen_program(rng, with_calls=False, stack=False, loops=True):
     """-> list of (list of assignment dicts, destination) per block; destination: ('j', i) | ('c', cond, i, j) | ('end',).
     Block 0 is the head.  Loops are bounded by the counter c (never assigned by the body)."""
     blocks = []
@@ -147,6 +147,8 @@ def gen_program(rng, with_calls=False, stack=False):
     body(cur)
     for _ in range(rng.choice((1, 2, 2, 3))):
         k = rng.random()
+        if not loops and 0.40 <= k < 0.80:
+            k = 0.2 if k < 0.6 else 0.9         # loop-free family: a diamond or an if-then instead of the counted loop
         if k < 0.40:
             # diamond
             t, e, j = new_block(), new_block(), new_block()
@@ -184,7 +186,7 @@ def gen_program(rng, with_calls=False, stack=False):
     # the exit: the return register is stored, so that it is observable as a memory write too
     blocks[cur][0].append({ExprMem(I(0x2000), W): R})
     blocks[cur][1] = ("end",)
-    if rng.random() < 0.25:
+    if loops and rng.random() < 0.25:
         # loop through the head
         k = rng.randrange(len(blocks))
         if blocks[k][1] and blocks[k][1][0] == "j" and k != 0:
